@@ -24,7 +24,7 @@ Explicit-state exploration on the real implementation (level model_checking):
     well-formed UTF-8 encoding of exactly those code points, and that mutating a literal raises and leaves it alone.
   * the exhaustive scalar loop: all 1 112 064 scalar values through char -> string -> utf8 -> string -> char,
     string-set! with a width change, make-string and a string port, against an arithmetic encoder written in Scheme
-    with fixnum arithmetic, plus a rolling checksum per 4096-block recomputed in Python (opt and asan).
+    with fixnum arithmetic, plus a rolling checksum per 4096-block recomputed in Python (opt; thorough also asan).
   * all triples over the 21 contents of length <= 2 for transitivity / variadic forms of string<? etc.
   * histories run on the `asan` variant with VERIF_POISON=1 (heap slack and free chunks poisoned), ASan in recover
     mode; any AddressSanitizer report / signal / early exit is a violation.
@@ -1236,7 +1236,8 @@ def main(tier, replay_path=None):
     # ---- side jobs (run in the same pool as depth 1): the exhaustive scalar loop and the comparison triples
     blocks = [(lo, min(lo + 4096, 0x110000)) for lo in range(0, 0x110000, 4096)]
     per = 17
-    side_jobs = [("scalar", v, blocks[i:i + per]) for v in ("opt", "asan") for i in range(0, len(blocks), per)]
+    scalar_variants = ("opt",) if quick else ("opt", "asan")
+    side_jobs = [("scalar", v, blocks[i:i + per]) for v in scalar_variants for i in range(0, len(blocks), per)]
     side_jobs.append(("cmp3", "asan"))
     scalars = {"opt": 0, "asan": 0}
 
@@ -1430,7 +1431,7 @@ def main(tier, replay_path=None):
     chk.cov["routes"] = [r[0] for r in ROUTES]
     chk.cov["max_history_length"] = depth
     chk.cov["max_string_length"] = lmax
-    chk.cov["variants"] = {"histories": "asan+VERIF_POISON", "scalar_loop": ["opt", "asan+VERIF_POISON"]}
+    chk.cov["variants"] = {"histories": "asan+VERIF_POISON", "scalar_loop": list(scalar_variants)}
     try:
         import resource
         ru = resource.getrusage(resource.RUSAGE_CHILDREN)
